@@ -339,10 +339,31 @@ def body_eigen(c, ctx):
         wref, Vref = dense_solver(AII, MII)
         ctx.close('solve_eigen_vectors', Y[I], Vref, 0.0, **sig)
     # enforce with a matrix right-hand side (CSR only)
-    if c['fmt'].startswith('csr') and sym and np.array_equal(Ad, Ad.T):
+    if c['fmt'].startswith('csr'):
+        hb = (mat_hash(A), mat_hash(M))
         Ae, Me = enforce(A, M, D=D.copy())
+        if (mat_hash(A), mat_hash(M)) != hb or Ae is A or Me is M:
+            ctx.fail('operands_enforce_eigen', 'enforce(A, M) without overwrite modified or returned an operand', **sig)
+        from skfem.utils import penalize
+        if len(D) and np.abs(Ad[D, D]).max() > 0:
+            Ap, Mp = penalize(A, M, D=D.copy())
+            if (mat_hash(A), mat_hash(M)) != hb or Ap is A or Mp is M:
+                ctx.fail('operands_penalize_eigen', 'penalize(A, M) without overwrite modified or returned an operand', **sig)
+            if not np.array_equal(Mp.toarray(), Md):
+                ctx.fail('penalize_eigen_mass', 'mass matrix changed', **sig)
+        A2, M2 = build_matrix(c), build_matrix(dict(n=n, entries=c['mentries'], fmt=c['fmt']))
+        Ao, Mo = enforce(A2, M2, D=D.copy(), overwrite=True)
+        if Ao is not A2 or Mo is not M2:
+            ctx.fail('overwrite_identity_eigen', '', **sig)
+        if not np.array_equal(Ao.toarray(), Ae.toarray()) or not np.array_equal(Mo.toarray(), Me.toarray()):
+            ctx.fail('overwrite_differs_eigen', '', **sig)
         Med = Me.toarray()
         Aed = Ae.toarray()
+        if np.any(Med[D] != 0):
+            ctx.fail('enforce_eigen_mass_rows', 'constrained rows of the mass matrix do not vanish', **sig)
+        if not np.array_equal(Med[I], Md[I]) or not np.array_equal(Aed[I], Ad[I]):
+            ctx.fail('enforce_eigen_other_rows', '', **sig)
+    if c['fmt'].startswith('csr') and sym and np.array_equal(Ad, Ad.T):
         if np.any(Med[D] != 0):
             ctx.fail('enforce_eigen_mass_rows', 'constrained rows of the mass matrix do not vanish', **sig)
         if not np.array_equal(Med[I], Md[I]) or not np.array_equal(Aed[I], Ad[I]):
